@@ -270,6 +270,10 @@ def str_token(rng, feats, opts, allow_multiline):
         return b'"x"', b'x'
 
 
+WORD_STRINGS = (b'nil', b'true', b'false', b'end', b'function', b'then', b'do', b'...', b'not', b'and', b'or', b'1', b'0x10', b'-1', b'..', b'=', b'--',
+                b'//', b'?', b'if', b'local', b'return', b'goto', b'::', b'nil ', b'True', b'NIL')
+
+
 class Gen:
     def __init__(self, rng, opts=None):
         self.rng = rng
@@ -360,7 +364,14 @@ class Gen:
         return self.exp(d)
 
     def string(self):
-        raw, val = str_token(self.rng, self.p.feats, self.o, allow_multiline=not self.in_line)
+        rng = self.rng
+        if rng.random() < 0.06:
+            # a string whose text is what a keyword, a value name, an operator or a number looks like (`type(v)=="nil"`)
+            val = rng.choice(WORD_STRINGS)
+            raw = rng.choice((b'"' + val + b'"', b"'" + val + b"'", b'[[' + val + b']]'))
+            self.p.feats.add('str:spells-a-word')
+        else:
+            raw, val = str_token(rng, self.p.feats, self.o, allow_multiline=not self.in_line)
         self.t('string', raw)
         return ('str', val)
 
